@@ -96,10 +96,11 @@ fn in_packet_case(ctx: &mut Ctx, compressed: bool, frame: &[u8], off: usize) {
 
 /// the field is six bytes however the reader cuts them up, and the reader is left right behind them
 fn segmented_case(ctx: &mut Ctx, b: &[u8], per: usize) {
-    ctx.oracle_eval("dribbling-reader");
-    let whole = read_trk(b).map(|r| r.map(|t| name(&t)));
+    let whole = read_trk(&b[..b.len().min(6)]).map(|r| r.map(|t| name(&t)));
     let b2 = b.to_vec();
     let piecewise = guard(move || { let mut r = Dribble::new(&b2, per); let t = Track::read_le(&mut r).map(|t| name(&t)).map_err(|_| ()); (t, r.inner.position()) });
+    // model line: Reader.decodeFrom 6 over the same pieces (theorem C14.segmented_read says what that is)
+    ctx.case(&format!("trk.seg {} {}", hex(b), per), &match &piecewise { Some((Ok(n), pos)) => format!("ok {} at {}", n, pos), Some((Err(()), _)) => "err decode".to_string(), None => "panic".to_string() });
     match piecewise {
         Some((t, pos)) if Some(t.clone()) == whole && (t.is_err() || pos == 6) => {},
         other => ctx.violation("c14/segmented-read", "the same six bytes decode differently (or leave the reader elsewhere) when the reader hands them over in pieces", &format!("trk.seg {} {}", hex(b), per), &format!("{:?} at 6", whole), &format!("{:?}", other)),
@@ -146,6 +147,7 @@ pub fn run(ctx: &mut Ctx) {
     // the same six bytes from a reader that hands them over in pieces, and inputs shorter than the field
     for t in all.iter() { let w = t.code(); let mut b = w.as_bytes().to_vec(); b.resize(6, 0); for per in 1..=6usize { segmented_case(ctx, &b, per); } }
     for u in [&b"ZZ9\0\0\0"[..], b"\0\0\0\0\0\0", b"BL1\0\0\x01", b"RO10XX"] { for per in [1usize, 3, 5] { segmented_case(ctx, u, per); } }
+    for u in [&b"BL1\0\0\0BL2\0\0\0"[..], b"RO10X\0tail", b"AS1\0\0\0\x01", b"BL1\0\0"] { for per in [1usize, 2, 4, 7, 64] { segmented_case(ctx, u, per); } }
     for t in all.iter() { let mut b = t.code().as_bytes().to_vec(); b.resize(6, 0); for cut in 1..6usize { short_case(ctx, &b[..cut]); } }
     ctx.exhaustive_domains.push(format!("all {} wire forms from a reader that gives 1..6 bytes per call; every proper prefix of every wire form", all.len()));
     // inside packets: every kind with a track field x {every configuration, near misses, unknown names}
